@@ -115,7 +115,12 @@ def gh(index, rep):
     # the share passed in is the greenhouse object's share of the same run, the hd split uses the configured delays
     p = index.func(PARAMS, "Parameters.init_greenhouse_params")
     call = [c for c in walk_no_nested(p) if isinstance(c, ast.Call) and isinstance(c.func, ast.Attribute) and c.func.attr == "set_crop_production_minus_greenhouse_area"]
-    rep.check(len(call) == 1 and norm_src(call[0].args[1]) == "greenhouses.greenhouse_fraction_area", rule, "share = this run's greenhouse share",
+    from .core import Inliner as _Inl
+    inl_p = _Inl(p)
+    share_src = inl_p.src(call[0].args[1]) if len(call) == 1 and len(call[0].args) > 1 else ""
+    area_calls = [inl_p.src(c_.func.value) for c_ in walk_no_nested(p) if isinstance(c_, ast.Call) and isinstance(c_.func, ast.Attribute) and c_.func.attr == "get_greenhouse_area"]
+    rep.check(len(call) == 1 and len(area_calls) == 1 and share_src == area_calls[0] + ".greenhouse_fraction_area" and share_src.startswith("Greenhouses("), rule,
+              "share = this run's greenhouse share",
               "the greenhouse share passed to the crop model is not the Greenhouses object's greenhouse_fraction_area", loc=loc(PARAMS, p))
     rep.require_min(rule, 5)
 
